@@ -2,7 +2,7 @@
    The driver parses this file's output. *)
 From ZV.Common Require Import Base Run.
 From Coq Require Import Sorting.Sorted Sorting.Permutation.
-From ZV.C11 Require Import Model ProofsSpec ProofsScatter ProofsLsd ProofsMerge ProofsSet ProofsExamples.
+From ZV.C11 Require Import Model ProofsSpec ProofsScatter ProofsLsd ProofsMerge ProofsSet ProofsInsertion ProofsExtSort ProofsExamples.
 Open Scope N_scope.
 
 (* the checker used for the S-only cells decides exactly "sorted permutation of the input" *)
@@ -109,3 +109,39 @@ Check set_unique_spec :
   forall l, Sorted N.le l ->
     StronglySorted N.lt (set_unique l) /\ (forall z, In z (set_unique l) <-> In z l).
 Print Assumptions set_unique_spec.
+
+(* insertion sort (small-input strategy, MSD cutoff, cache-oblivious base case) *)
+Theorem insertion_sort_sorts :
+  forall data, Sorted N.le (insertion_sort data) /\ Permutation data (insertion_sort data).
+Proof. exact insertion_sort_sorts_proof. Qed.
+Check insertion_sort_sorts :
+  forall data, Sorted N.le (insertion_sort data) /\ Permutation data (insertion_sort data).
+Print Assumptions insertion_sort_sorts.
+
+(* replacement selection as coded: every run is sorted and the runs together are the input,
+   for every buffer of at least one element *)
+Theorem replacement_selection_runs :
+  forall mem input, (0 < mem)%nat ->
+    Forall (Sorted N.le) (rs_runs_of mem input) /\ Permutation input (concat (rs_runs_of mem input)).
+Proof. exact rs_runs_proof. Qed.
+Check replacement_selection_runs :
+  forall mem input, (0 < mem)%nat ->
+    Forall (Sorted N.le) (rs_runs_of mem input) /\ Permutation input (concat (rs_runs_of mem input)).
+Print Assumptions replacement_selection_runs.
+
+(* ReplaceSelectSort::sort = run generation + loser-tree merge of the runs *)
+Theorem external_sort_sorts :
+  forall mem input, (0 < mem)%nat ->
+    Sorted N.le (rs_sort mem input) /\ Permutation input (rs_sort mem input).
+Proof. exact external_sort_sorts_proof. Qed.
+Check external_sort_sorts :
+  forall mem input, (0 < mem)%nat ->
+    Sorted N.le (rs_sort mem input) /\ Permutation input (rs_sort mem input).
+Print Assumptions external_sort_sorts.
+
+(* with a zero-element buffer (the state of the code before fix ddd21a5) everything is lost *)
+Theorem external_sort_zero_buffer_refuted :
+  exists input, rs_sort 0 input <> isort input.
+Proof. exact external_sort_zero_buffer_refuted_proof. Qed.
+Check external_sort_zero_buffer_refuted : exists input, rs_sort 0 input <> isort input.
+Print Assumptions external_sort_zero_buffer_refuted.
